@@ -175,7 +175,7 @@ def _masks(mask, n):
 @obligation(params={'nl': (0, 5), 'cpn_cfg': (0, 2), 'cpn_env': (1, 2),
                     'gpn': (0, 2), 'req': (0, 4), 'n_agents': (0, 2),
                     'services': 'bool', 'bc': (0, 3), 'bg': (0, 3),
-                    'backup': (0, 1)},
+                    'backup': (0, 1), 'rgpus': (0, 4)},
             shapes={'quick': [{'small': True}], 'thorough': [{'small': False}]},
             partition={'quick': ('nl', 6), 'thorough': ('nl', 6)},
             timeout={'quick': 300, 'thorough': 1800},
@@ -186,11 +186,15 @@ def _masks(mask, n):
                    'from $SLURM_CPUS_ON_NODE) 2 or 4, GPUs per node 0..2, '
                    'requested nodes 0..4 (0 = derive from cores), 0..2 '
                    'sub-agent nodes, service node, blocked core/GPU masks over '
-                   'the first 2 indices, backup nodes 0/1')
+                   'the first 2 indices, backup nodes 0/1, requested GPUs 0..4 '
+                   '(when the node count is derived)')
 def h_slurm(nl, cpn_cfg, cpn_env, gpn, req, n_agents, services, bc, bg,
-            backup, small=False):
+            backup, rgpus, small=False):
     """Slurm allocation -> node list offered for placement"""
+    # requested GPUs only matter when the node count is derived (req == 0)
+    if rgpus and (req or not gpn): return
     if small:
+        if rgpus and (n_agents or services or bc or bg): return
         if bg > 1 or bc > 1 or cpn_env != 2 or gpn > 1 or cpn_cfg == 1: return
         if backup: return
         # blocked cells and the agent layout are handled independently
@@ -208,8 +212,9 @@ def h_slurm(nl, cpn_cfg, cpn_env, gpn, req, n_agents, services, bc, bg,
     blocked_c = _masks(bc, 2)
     blocked_g = [i for i in _masks(bg, 2) if i < gpn]
     if len(blocked_c) >= cells: return
+    rgpus = conc(rgpus, 0, 4)
     cores = (req or 1) * (cells - len(blocked_c))
-    rm = mk_rm(m_slurm.Slurm, m_slurm, env, {}, cpn, gpn, 1, req, cores, 0,
+    rm = mk_rm(m_slurm.Slurm, m_slurm, env, {}, cpn, gpn, 1, req, cores, rgpus,
                backup, n_agents, services, blocked_c, blocked_g)
     try:
         info = rm._init_from_scratch()
@@ -217,7 +222,17 @@ def h_slurm(nl, cpn_cfg, cpn_env, gpn, req, n_agents, services, bc, bg,
         trace('refused', repr(e))
         return              # the agent refuses to start: nothing is offered
     reach()
-    requested = req or info.requested_nodes
+    if req:
+        requested = req
+    else:
+        # derived by the agent: smallest node count covering cores and GPUs
+        requested = -(-cores // (cells - len(blocked_c)))
+        if gpn - len(blocked_g) > 0:
+            requested = max(requested, -(-rgpus // (gpn - len(blocked_g))))
+        check(info.requested_nodes == requested, 'agent derives %s nodes for '
+              '%s cores / %s gpus (usable per node: %s cores, %s gpus)',
+              info.requested_nodes, cores, rgpus, cells - len(blocked_c),
+              gpn - len(blocked_g))
     verify_rm_info(info, hosts, cells, gpn, blocked_c, blocked_g, requested,
                    n_agents, services)
     check(len(info.node_list) == min(len(hosts), requested)
